@@ -167,7 +167,13 @@ func (g *Gen) pad(stream int) []byte {
 func (g *Gen) pair(stream int) (s, sub []byte) {
 	alpha := g.alphabet(stream)
 	ill := stream == streamIll
-	kind := g.intn(10)
+	kind := g.intn(12)
+	if kind >= 10 {
+		if stream == streamValid || stream == streamIll {
+			return g.extremal(stream)
+		}
+		kind = 2 + g.intn(5)
+	}
 	switch {
 	case kind < 2: // independent random strings over the same small alphabet
 		s = append(append(g.pad(stream), join(g.toks(alpha, g.intn(10)))...), g.pad(stream)...)
